@@ -57,6 +57,7 @@ type Scn struct {
 	//   never        not at all
 	//   held         while the application is shutting its input down (inside the Suspend of the end phase)
 	//   held-resume  after the Resume of the end phase has returned
+	//   expired      after the caller has given up (clipboard requests only: they end with the caller's context)
 	QCallers []QCaller `json:",omitempty"`
 	QReply   string    `json:",omitempty"`
 	Cycles   int       `json:",omitempty"`
@@ -399,7 +400,7 @@ func queryRun(sc *Scn, res *Result) *Result {
 	caps := responder.FromMask(sc.Mask|1<<10|1<<11|1<<12, false) // the terminal answers OSC 4 / 10 / 11 queries
 	con := fakecon.New(20, 5)
 	var active, ending atomic.Bool
-	var nreply atomic.Int64
+	var nreply, pendingLate atomic.Int64
 	var hmu sync.Mutex
 	var held [][]byte
 	release := func() {
@@ -412,7 +413,7 @@ func queryRun(sc *Scn, res *Result) *Result {
 		}
 	}
 	resp := responder.New(caps, 20, 5, func(b []byte) {
-		if !active.Load() || !isQueryReply(b) {
+		if !active.Load() || !(isQueryReply(b) || sc.QReply == "expired" && bytes.HasPrefix(b, []byte("\x1b]52;"))) {
 			con.Inject(b)
 			return
 		}
@@ -421,6 +422,12 @@ func queryRun(sc *Scn, res *Result) *Result {
 		case "late":
 			b := append([]byte(nil), b...)
 			time.AfterFunc(time.Duration(1+n%7)*time.Millisecond, func() { con.Inject(b) })
+		case "expired":
+			// after the caller has given up (a clipboard request ends with its 30 ms context: the terminal asked
+			// its user for permission first)
+			b := append([]byte(nil), b...)
+			pendingLate.Add(1)
+			time.AfterFunc(time.Duration(45+n%7)*time.Millisecond, func() { con.Inject(b); pendingLate.Add(-1) })
 		case "never":
 		case "held", "held-resume":
 			hmu.Lock()
@@ -551,6 +558,12 @@ func queryRun(sc *Scn, res *Result) *Result {
 		}
 	default:
 		waitAll(4*time.Second, func(o *QObs) { o.Before = true })
+		if sc.QReply == "expired" { // the replies nobody waits for any more arrive, and the input loop digests them
+			for dl := time.Now().Add(time.Second); pendingLate.Load() > 0 && time.Now().Before(dl); {
+				time.Sleep(time.Millisecond)
+			}
+			time.Sleep(30 * time.Millisecond)
+		}
 	}
 	ending.Store(true)
 	if ok {
@@ -1046,6 +1059,15 @@ func GenQuery(rng *rand.Rand) *Scn {
 	case "held-resume":
 		sc.End = "suspend-resume-close"
 	}
+	if rng.Intn(8) == 0 {
+		// every reply comes after its caller has given up: clipboard requests (the only query with a deadline of
+		// the caller's own)
+		sc.QReply, sc.Cycles = "expired", 0
+		for c := 1 + rng.Intn(2); c > 0; c-- {
+			sc.QCallers = append(sc.QCallers, QCaller{Kinds: []string{"clip"}, N: 1 + rng.Intn(3)})
+		}
+		return sc
+	}
 	for c := 1 + rng.Intn(4); c > 0; c-- {
 		qc := QCaller{N: n}
 		nk := 1
@@ -1092,6 +1114,8 @@ func Fixed() []*Scn {
 		{Kind: "queries", QReply: "late", QCallers: []QCaller{{[]string{"color:10"}, 8}, {[]string{"color:11", "bg"}, 5}, {[]string{"fg", "cpr"}, 5}}, Render: 3, End: "suspend-resume-close", Seed: 27},
 		{Kind: "queries", QReply: "ontime", Cycles: 8, QCallers: []QCaller{{[]string{"cpr"}, 20}, {[]string{"cpr", "clip"}, 20}}, Render: 2, End: "close", Seed: 28},
 		{Kind: "queries", QReply: "ontime", Cycles: 3, QCallers: []QCaller{{[]string{"color:3", "fg"}, 40}}, End: "suspend-close", Seed: 29},
+		{Kind: "queries", QReply: "expired", QCallers: []QCaller{{[]string{"clip"}, 1}}, Render: 1, End: "close", Seed: 31},
+		{Kind: "queries", QReply: "expired", QCallers: []QCaller{{[]string{"clip"}, 2}, {[]string{"clip"}, 1}}, End: "suspend-resume-close", Seed: 32},
 		{Kind: "queries", QReply: "ontime", Cycles: 6, QCallers: []QCaller{{[]string{"bg"}, 10}, {[]string{"color:7", "cpr"}, 10}}, Render: 1, End: "suspend-resume-close", Seed: 30},
 		// widgets/spinner: its ticker goroutine is one of the library's
 		{Kind: "spinner", Spin: "run", Seed: 31},
